@@ -1,17 +1,26 @@
 import CalVerif.Model.Password
 import CalVerif.Spec.PasswordSpec
 import CalVerif.Lemmas.Password
+import CalVerif.Lemmas.PasswordCfb
 /-! # C20 — encrypted workbooks are reported as password protected, and only those
 
-    Theorems about the decision logic of the four password checks (`Model/Password.lean`):
+    Theorems about the decision logic of the four password checks (`Model/Password.lean`); helper lemmas are in
+    `Lemmas/Password.lean`.
 
-    * xls  : `filepass_detected`, `no_false_positive_xls`, `xls_password_iff` (records);
-             `filepass_detected_stream`, `no_false_positive_xls_stream` (bytes of the `Workbook` stream,
-             through C12's model of `RecordIter`)
-    * ods  : `manifest_detected`, `no_false_positive_ods`, `ods_password_iff` (events);
-             `manifest_spec` (logical manifest → events → outcome)
-    * ooxml: `ooxml_password_iff`, `no_false_positive_ooxml`, `zip_never_password`, `short_file_never_password`,
-             `encrypted_package_detected_rel` (relative to C13's `Cfb.new_layout_ok`, see `CfbNewOnLayouts`)
+    * xls, records : `filepass_detected` (+ `filepass_xor_detected`, `filepass_rc4_detected`),
+                     `no_false_positive_xls`, `xls_password_iff`, `xls_pass_of_no_filepass`
+    * xls, stream  : `filepass_detected_stream`, `no_false_positive_xls_stream`, `stream_fuel_suffices`
+                     (bytes of the `Workbook` stream, through C12's model of `RecordIter::next`)
+    * xls, file    : `xls_file_filepass_detected`, `xls_file_no_false_positive`, `xls_not_a_compound_file`
+                     (stated on the outcome of the container stage), `xls_file_filepass_detected_layout`
+                     (over every valid container layout, from C13's round-trip)
+    * ods          : `manifest_detected`, `no_false_positive_ods`, `ods_password_iff` (event lists),
+                     `manifest_spec` (logical manifest → events → outcome, both directions)
+    * xlsx / xlsb  : `ooxml_password_iff`, `no_false_positive_ooxml`, `zip_never_password`,
+                     `short_file_never_password`; over every valid container layout (C13's encoder `layoutCfb`):
+                     `encrypted_package_detected`, `encrypted_streams_detected`, `plain_compound_file_never_password`
+                     (from the `_rel` forms + C13's `new_layout_good` / `hasDirectory_layout` / `getStream_layout`,
+                     see `Lemmas/PasswordCfb.lean`)
 
     Not covered by a theorem (validated by the correspondence run only): the zip container, quick-xml turning the
     manifest text into the event list, `Cfb::new` ↔ `Cfb.new` (C13's tie), the record arms other than
@@ -183,7 +192,8 @@ theorem xls_file_filepass_detected_rel (hC13 : CfbReadsLayouts) (arms : Arms)
     cases h : Cfb.hasDirectory c vbaName with
     | false => rfl
     | true =>
-      rcases (hdir vbaName).1 h with h1 | ⟨s, hs, hn⟩
+      rcases hdir vbaName h with h1 | h1 | ⟨s, hs, hn⟩
+      · exact absurd h1 (by decide)
       · exact absurd h1 (by decide)
       · exact absurd hn (hvba s hs)
   exact xls_file_filepass_detected arms _ c c' rd rd' pre payload tail hnew hnov hg hpre hpay htail
@@ -349,6 +359,51 @@ theorem encrypted_streams_detected_rel (hC13 : CfbNewOnLayouts)
     (hv : Cfb.Valid (encryptedStreams ct info extra) L) :
     ooxmlCheck (Cfb.layoutCfb (encryptedStreams ct info extra) L) = .password :=
   encrypted_package_detected_rel hC13 _ L ct (by simp [encryptedStreams]) hv
+
+/-! ### … discharged with C13's round-trip theorems: unconditional statements over all valid layouts -/
+
+/-- **Every encrypted OOXML package is detected, in any container layout**: for all streams among which one is named
+    `EncryptedPackage` (any cipher-text bytes and size — mini stream or regular sectors — any `EncryptionInfo`
+    variant, any further streams) and every valid layout (sector size 512 or 4096, any sector permutation and
+    fragmentation, free sectors, any number of FAT and DIFAT sectors, any directory order with unused entries, any
+    mini-sector allocation, any padding) the xlsx/xlsb check answers `Password`. -/
+theorem encrypted_package_detected (streams : List Cfb.Stream) (L : Cfb.Layout) (ct : Bytes)
+    (hmem : (⟨encryptedPackage, ct⟩ : Cfb.Stream) ∈ streams) (hv : Cfb.Valid streams L) :
+    ooxmlCheck (Cfb.layoutCfb streams L) = .password :=
+  encrypted_package_detected_rel cfbNewOnLayouts streams L ct hmem hv
+
+theorem encrypted_streams_detected (ct info : Bytes) (extra : List Cfb.Stream) (L : Cfb.Layout)
+    (hv : Cfb.Valid (encryptedStreams ct info extra) L) :
+    ooxmlCheck (Cfb.layoutCfb (encryptedStreams ct info extra) L) = .password :=
+  encrypted_streams_detected_rel cfbNewOnLayouts ct info extra L hv
+
+/-- conversely, a compound file (any valid layout) none of whose streams is named `EncryptedPackage` — an xls
+    workbook, a VBA project, an encrypted package under a differently spelled name — is handed to the zip reader -/
+theorem plain_compound_file_never_password (streams : List Cfb.Stream) (L : Cfb.Layout)
+    (hno : ∀ s ∈ streams, s.name ≠ encryptedPackage) (hv : Cfb.Valid streams L) :
+    ooxmlCheck (Cfb.layoutCfb streams L) = .pass := by
+  obtain ⟨c, rd, hnew, hdir, _⟩ := cfbReadsLayouts streams L hv
+  unfold ooxmlCheck
+  rw [hnew]
+  cases h : Cfb.hasDirectory c encryptedPackage with
+  | false => simp [h]
+  | true =>
+    rcases hdir _ h with h1 | h1 | ⟨s, hs, hn⟩
+    · exact absurd h1 (by decide)
+    · exact absurd h1 (by decide)
+    · exact absurd hn (hno s hs)
+
+/-- **End to end for xls, over all container layouts**: a `Workbook` stream whose globals carry a FILEPASS record,
+    next to any other streams except a VBA project, in any valid layout, makes `Xls::new` return `Password`. -/
+theorem xls_file_filepass_detected_layout (arms : Arms)
+    (streams : List Cfb.Stream) (L : Cfb.Layout) (pre : List Rec) (payload tail : Bytes)
+    (hv : Cfb.Valid streams L)
+    (hwb : (⟨workbookName, frameAll pre ++ frame1 FILEPASS payload ++ tail⟩ : Cfb.Stream) ∈ streams)
+    (hvba : ∀ s ∈ streams, s.name ≠ vbaName)
+    (hpre : ∀ p ∈ pre, Plain p ∧ p.typ ≠ EOF ∧ arms p = none)
+    (hpay : payload.length < 65536) (htail : NoContHead tail) :
+    xlsOpen arms (Cfb.layoutCfb streams L) = .password :=
+  xls_file_filepass_detected_rel cfbReadsLayouts arms streams L pre payload tail hv hwb hvba hpre hpay htail
 
 /-! ## non-vacuity: concrete instances meeting the hypotheses -/
 
